@@ -336,7 +336,11 @@ class ProgGen:
             if top[0] == 'map':
                 cands += ['MAP_GET', 'MAP_UPDATE']
             if top[0] == 'list':
-                cands += ['IF_CONS']
+                cands += ['IF_CONS', 'LIST_MAP', 'LIST_MAP', 'LIST_REV']
+            if top[0] == 'map':
+                cands += ['MAP_MAP', 'MAP_ITER']
+            if top[0] == 'set':
+                cands += ['SET_COPY']
         if len(S) >= 2:
             cands += ['SWAP', 'DIG', 'DUG', 'DUPN', 'UPDATE0']      # UPDATE 0 :: a : b : S -> a : S, any a, b
             if not big and tsize(S[1]) <= self.max_tsize:
@@ -458,6 +462,61 @@ class ProgGen:
         if c == 'IF_CONS':
             # IF_CONS { SWAP ; DROP } { PUSH t v }  : head or a default
             return [{'prim': 'IF_CONS', 'args': [[{'prim': 'SWAP'}, {'prim': 'DROP'}], [self.push(top[1])]]}], [top[1]] + S[1:]
+        if c == 'LIST_MAP':
+            # MAP over a list: the body leaves a component / a wrapped copy of the element — the new list's element type is made
+            # from the type the body's result carries (with whatever annotations the element type had on that component)
+            el = top[1]
+            opts = ['ID', 'SOME', 'CONST']
+            if tsize(el) * 2 <= self.max_tsize:
+                opts.append('DUPPAIR')
+            if el[0] == 'pair':
+                opts += ['CAR', 'CDR', 'GETN', 'SWAPPED'] * 2
+            if el[0] == 'option':
+                opts += ['DEFAULT'] * 2
+            k = rng.choice(opts)
+            if k == 'ID':
+                return [{'prim': 'MAP', 'args': [[]]}], S
+            if k == 'SOME':
+                return [{'prim': 'MAP', 'args': [[{'prim': 'SOME'}]]}], [('list', ('option', el))] + S[1:]
+            if k == 'CONST':
+                sh = rand_shape(rng, 1)
+                return [{'prim': 'MAP', 'args': [[{'prim': 'DROP'}, self.push(sh)]]}], [('list', sh)] + S[1:]
+            if k == 'DUPPAIR':
+                return [{'prim': 'MAP', 'args': [[{'prim': 'DUP'}, {'prim': 'PAIR'}]]}], [('list', ('pair', el, el))] + S[1:]
+            if k == 'CAR':
+                return [{'prim': 'MAP', 'args': [[{'prim': 'CAR'}]]}], [('list', el[1])] + S[1:]
+            if k == 'CDR':
+                return [{'prim': 'MAP', 'args': [[{'prim': 'CDR'}]]}], [('list', el[2])] + S[1:]
+            if k == 'GETN':
+                n = rng.randrange(0, 2 * comb_leaves(el) - 1)
+                return [{'prim': 'MAP', 'args': [[{'prim': 'GET', 'args': [{'int': str(n)}]}]]}], [('list', t_getn(n, el))] + S[1:]
+            if k == 'SWAPPED':
+                return [{'prim': 'MAP', 'args': [[{'prim': 'UNPAIR'}, {'prim': 'SWAP'}, {'prim': 'PAIR'}]]}], [('list', ('pair', el[2], el[1]))] + S[1:]
+            return [{'prim': 'MAP', 'args': [[{'prim': 'IF_NONE', 'args': [[self.push(el[1])], []]}]]}], [('list', el[1])] + S[1:]
+        if c == 'LIST_REV':
+            return [{'prim': 'NIL', 'args': [self.ty(top[1])]}, {'prim': 'SWAP'}, {'prim': 'ITER', 'args': [[{'prim': 'CONS'}]]}], S
+        if c == 'MAP_MAP':
+            kk, vv = top[1], top[2]
+            k = rng.choice(['CDR', 'CAR', 'ID', 'CDRSOME'] + (['VCAR', 'VCDR'] * 2 if vv[0] == 'pair' else []))
+            if k == 'CDR':
+                return [{'prim': 'MAP', 'args': [[{'prim': 'CDR'}]]}], S
+            if k == 'CAR':
+                return [{'prim': 'MAP', 'args': [[{'prim': 'CAR'}]]}], [('map', kk, kk)] + S[1:]
+            if k == 'ID':
+                if tsize(kk) + tsize(vv) > self.max_tsize:
+                    return [{'prim': 'MAP', 'args': [[{'prim': 'CDR'}]]}], S
+                return [{'prim': 'MAP', 'args': [[]]}], [('map', kk, ('pair', kk, vv))] + S[1:]
+            if k == 'CDRSOME':
+                return [{'prim': 'MAP', 'args': [[{'prim': 'CDR'}, {'prim': 'SOME'}]]}], [('map', kk, ('option', vv))] + S[1:]
+            if k == 'VCAR':
+                return [{'prim': 'MAP', 'args': [[{'prim': 'CDR'}, {'prim': 'CAR'}]]}], [('map', kk, vv[1])] + S[1:]
+            return [{'prim': 'MAP', 'args': [[{'prim': 'CDR'}, {'prim': 'CDR'}]]}], [('map', kk, vv[2])] + S[1:]
+        if c == 'MAP_ITER':
+            # collect the values: NIL v ; SWAP ; ITER { CDR ; CONS }
+            return [{'prim': 'NIL', 'args': [self.ty(top[2])]}, {'prim': 'SWAP'}, {'prim': 'ITER', 'args': [[{'prim': 'CDR'}, {'prim': 'CONS'}]]}], [('list', top[2])] + S[1:]
+        if c == 'SET_COPY':
+            T = {'prim': 'PUSH', 'args': [{'prim': 'bool'}, {'prim': 'True'}]}
+            return [{'prim': 'EMPTY_SET', 'args': [self.ty(top[1])]}, {'prim': 'SWAP'}, {'prim': 'ITER', 'args': [[T, {'prim': 'SWAP'}, {'prim': 'UPDATE'}]]}], S
         if c == 'MAP_GET':
             key = rand_keys(rng, top[1], 1)[0]
             return [{'prim': 'PUSH', 'args': [self.ty(top[1]), key]}, {'prim': 'GET'}], [('option', top[2])] + S[1:]
